@@ -13,6 +13,7 @@ package main
 
 import (
 	"bufio"
+	"context"
 	"encoding/json"
 	"fmt"
 	"os"
@@ -591,10 +592,14 @@ func minimiseAndConfirm(dir string, spec propSpec, prop string, f *failure, know
 	if race {
 		bin = filepath.Join(dir, "bin", "worker-race")
 	}
-	cmd := exec.Command(bin, "-engine", eng, "-prop", prop, "-sites", filepath.Join(dir, "sites.json"), "-minimize", raw, "-o", min)
+	// minimisation only decides how small the replay file is, never the verdict: if it
+	// does not finish in time the unminimised failure is the replay
+	mctx, mcancel := context.WithTimeout(context.Background(), 4*time.Minute)
+	cmd := exec.CommandContext(mctx, bin, "-engine", eng, "-prop", prop, "-sites", filepath.Join(dir, "sites.json"), "-minimize", raw, "-o", min)
 	cmd.Env = workerEnv(dir, race, true)
 	cmd.Stderr = os.Stderr
 	cmd.Run()
+	mcancel()
 	best := *f
 	if r := readShard(min); r.err == nil && len(r.fails) > 0 {
 		var oc struct {
